@@ -161,6 +161,10 @@ def configs(tier):
             out.append({'name': 'predict-k%d-%s' % (k, 'hook' if hook else 'nohook'), 'task': 'predicting',
                         'args': {'k': k, 'hook': hook}, 'weight': 4 ** k if hook else 2 ** k,
                         'split': 48 if (hook and k >= 4) else None, 'engine': {'validate': 20}})
+    if tier == 'quick':
+        for k in (5, 6, 7):       # size thresholds: longer request sequences without the hook (few choices per request)
+            out.append({'name': 'predict-k%d-nohook' % k, 'task': 'predicting', 'args': {'k': k, 'hook': False}, 'weight': 2 ** k,
+                        'split': 32 if k >= 6 else None, 'engine': {'validate': 20}})
     for k in ((2, 3) if tier == 'quick' else (2, 3, 4)):
         out.append({'name': 'predict-k%d-nohook-objective-may-return-inf' % k, 'task': 'predicting',
                     'args': {'k': k, 'hook': False, 'inf': True}, 'weight': 4 ** k, 'split': 48 if k >= 4 else None, 'engine': {'validate': 20}})
